@@ -28,6 +28,8 @@ def build(m, cfg):
         plugins.append(FencedDirective(dl(), ":"))
     elif d == "rst":
         plugins.append(RSTDirective(dl()))
+    elif d and d.startswith("marker:"):
+        plugins.append(FencedDirective(dl(), d[7:]))      # any fence characters the caller chooses
     elif d == "colon+rst":
         plugins.append(FencedDirective(dl(), ":"))
         plugins.append(RSTDirective(dl()))
